@@ -42,34 +42,54 @@ class Cond:
         return self.label or f"{self.module.split('.')[-1]}.{self.function}[{self.case}]"
 
 
-def _run_worker(c: Cond, exclusions: List[str]) -> dict:
+def _blank(error, exclusions, wall=0.0):
+    return {"status": "UNKNOWN", "exhausted": False, "paths": 0, "confirmed_paths": 0, "cpu_s": 0.0,
+            "wall_s": wall, "messages": [], "cex": None, "notes": [], "functions": [],
+            "error": error, "exclusions": exclusions}
+
+
+def _run_batch(conds: List[Cond], exclusions: List[str]) -> List[dict]:
+    """run several conditions of the same (module, function, env, float model) in one worker process"""
+    c = conds[0]
     env = dict(os.environ)
     env.update(c.env)
     env["PYTHONPATH"] = ROOT
     env["PYTHONHASHSEED"] = env.get("PYTHONHASHSEED", "0")
+    cases = ",".join(str(x.case) for x in conds)
+    tmo = max(x.timeout for x in conds)
     if c.engine == "smt":
-        cmd = [VENV_PY, "-W", "ignore", "-m", "vf.smtworker", c.module, c.function, str(c.case), str(c.timeout)]
+        cmd = [VENV_PY, "-W", "ignore", "-m", "vf.smtworker", c.module, c.function, cases, str(tmo)]
     else:
-        cmd = [VENV_PY, "-W", "ignore", "-m", "vf.worker", c.module, c.function, str(c.case), str(c.timeout), c.float_model]
+        cmd = [VENV_PY, "-W", "ignore", "-m", "vf.worker", c.module, c.function, cases, str(tmo), c.float_model]
         if exclusions:
             cmd.append(json.dumps(exclusions))
     t0 = time.time()
+    out, err_tail, timed_out = "", "", False
     try:
-        p = subprocess.run(cmd, env=env, cwd=ROOT, capture_output=True, text=True, timeout=c.timeout * 3 + 120)
+        p = subprocess.run(cmd, env=env, cwd=ROOT, capture_output=True, text=True,
+                           timeout=sum(x.timeout for x in conds) * 2 + 120 * len(conds))
         out = p.stdout
         err_tail = p.stderr[-1500:]
-    except subprocess.TimeoutExpired:
-        return {"status": "UNKNOWN", "exhausted": False, "paths": 0, "confirmed_paths": 0, "cpu_s": 0.0,
-                "wall_s": time.time() - t0, "messages": [], "cex": None, "notes": [], "functions": [],
-                "error": "worker wall-clock timeout", "exclusions": exclusions}
+    except subprocess.TimeoutExpired as e:
+        timed_out = True
+        out = e.stdout.decode() if isinstance(e.stdout, bytes) else (e.stdout or "")
+    by_case = {}
     for line in out.splitlines():
         if line.startswith("VFRESULT "):
             r = json.loads(line[len("VFRESULT "):])
-            r["wall_s"] = round(time.time() - t0, 2)
-            return r
-    return {"status": "UNKNOWN", "exhausted": False, "paths": 0, "confirmed_paths": 0, "cpu_s": 0.0,
-            "wall_s": time.time() - t0, "messages": [], "cex": None, "notes": [], "functions": [],
-            "error": "no VFRESULT line; stderr tail: " + err_tail, "exclusions": exclusions}
+            by_case[r["case"]] = r
+    res = []
+    for x in conds:
+        r = by_case.get(x.case)
+        if r is None:
+            r = _blank("worker wall-clock timeout" if timed_out else "no VFRESULT line; stderr tail: " + err_tail,
+                       exclusions, time.time() - t0)
+        res.append(r)
+    return res
+
+
+def _run_worker(c: Cond, exclusions: List[str]) -> dict:
+    return _run_batch([c], exclusions)[0]
 
 
 def write_replay(prop: str, c: Cond, cex: dict) -> str:
@@ -134,13 +154,16 @@ def match_finding(findings, prop, c: Cond, args: dict) -> Optional[dict]:
     return None
 
 
-def decide_condition(prop: str, c: Cond, findings: List[dict], log) -> dict:
+def decide_condition(prop: str, c: Cond, findings: List[dict], log, first: Optional[dict] = None) -> dict:
     """run one condition to a verdict (re-running with exclusions after known findings)"""
     exclusions: List[str] = []
     known_hits = []
     rounds = []
     while True:
-        r = _run_worker(c, exclusions)
+        if first is not None:
+            r, first = first, None
+        else:
+            r = _run_worker(c, exclusions)
         rounds.append(r)
         verdict = None
         if r.get("error"):
@@ -206,26 +229,55 @@ def decide_condition(prop: str, c: Cond, findings: List[dict], log) -> dict:
     return total
 
 
+def _batches(conds: List[Cond]) -> List[List[int]]:
+    """group light conditions of the same harness into one process (start-up dominates small searches)"""
+    groups: Dict[tuple, List[int]] = {}
+    for i, c in enumerate(conds):
+        key = (c.module, c.function, c.float_model, c.engine, c.expect, tuple(sorted(c.env.items())))
+        groups.setdefault(key, []).append(i)
+    total = sum(c.weight for c in conds) or 1.0
+    cap = max(max(c.weight for c in conds), total / (NCPU * 3.0))
+    out = []
+    for key, idxs in groups.items():
+        idxs = sorted(idxs, key=lambda i: -conds[i].weight)
+        cur, w = [], 0.0
+        for i in idxs:
+            if cur and w + conds[i].weight > cap:
+                out.append(cur)
+                cur, w = [], 0.0
+            cur.append(i)
+            w += conds[i].weight
+        if cur:
+            out.append(cur)
+    out.sort(key=lambda b: -sum(conds[i].weight for i in b))
+    return out
+
+
+def _decide_batch(prop, conds, idxs, findings, log):
+    firsts = _run_batch([conds[i] for i in idxs], [])
+    return [(i, decide_condition(prop, conds[i], findings, log, first=r)) for i, r in zip(idxs, firsts)]
+
+
 def run_all(prop: str, conds: List[Cond], log=print) -> List[dict]:
     findings = load_findings()
     results = [None] * len(conds)
-    # longest first
-    order = sorted(range(len(conds)), key=lambda i: -conds[i].weight)
+    batches = _batches(conds)
+    done = 0
     with cf.ThreadPoolExecutor(max_workers=NCPU) as ex:
-        futs = {ex.submit(decide_condition, prop, conds[i], findings, log): i for i in order}
-        done = 0
+        futs = {ex.submit(_decide_batch, prop, conds, b, findings, log): b for b in batches}
         for fu in cf.as_completed(futs):
-            i = futs[fu]
+            b = futs[fu]
             try:
-                results[i] = fu.result()
+                pairs = fu.result()
             except Exception as e:  # harness bug
-                results[i] = {"name": conds[i].name, "verdict": "inconclusive", "detail": "driver exception: %r" % e,
+                pairs = [(i, {"name": conds[i].name, "verdict": "inconclusive", "detail": "driver exception: %r" % e,
                               "paths": 0, "confirmed_paths": 0, "cpu_s": 0, "wall_s": 0, "notes": [], "functions": [],
                               "known_hits": [], "exhausted": False, "status": "UNKNOWN", "expect": conds[i].expect,
                               "module": conds[i].module, "function": conds[i].function, "case": conds[i].case,
-                              "float_model": conds[i].float_model, "timeout_s": conds[i].timeout, "rounds": 0}
-            done += 1
-            r = results[i]
-            if r["verdict"] not in ("holds-all-paths", "holds-all-paths-real-arith", "reachable") or os.environ.get("VF_VERBOSE"):
-                log(f"  [{done}/{len(conds)}] {r['name']}: {r['verdict']} {r['detail']} paths={r['paths']} cpu={r['cpu_s']}s")
+                              "float_model": conds[i].float_model, "timeout_s": conds[i].timeout, "rounds": 0}) for i in b]
+            for i, r in pairs:
+                results[i] = r
+                done += 1
+                if r["verdict"] not in ("holds-all-paths", "holds-all-paths-real-arith", "reachable") or os.environ.get("VF_VERBOSE"):
+                    log(f"  [{done}/{len(conds)}] {r['name']}: {r['verdict']} {r['detail']} paths={r['paths']} cpu={r['cpu_s']}s")
     return results
